@@ -305,18 +305,21 @@ UCI_MODELLED = ["engine/uci/uci.go: process (position/ucinewgame/setoption/go de
                 "-> Driver.Uci (sequential, executable), Model.UciSeq.continuation"]
 
 PROPS["C10"] = dict(
-    modules=["Morlock.Props.C10"],
+    modules=["Morlock.Props.C10", "Morlock.Props.C10Engine"],
     streams=["ucidet", "engine"],
-    level_text="Lean: the extension recogniser is proved to accept a verbatim repeat with no extra words, to reject a shortened line and a prefix that is not word aligned "
-               "(witnesses of the repaired defects), and to return exactly the extra words. Tie (decides the property): scripted sessions against the real uci.Driver "
-               "in-process - position lines extended by 1-3 moves, repeated verbatim, shortened, other games, FEN clocks whose text is a prefix of the next, ucinewgame, "
-               "malformed lines in between - after every command the engine's FEN, hash, ply, clocks, last moves and result are compared with the sequential Lean model of the "
-               "driver (exact) and with a game built from the LAST command alone by the reference semantics (Spec.Game).",
-    level_note="Trusted: Lean kernel; Driver.Uci model tied exactly by the ucidet stream; the reference denote() reads only the last well-formed position command. "
-               "The refinement theorem over all command sequences is not proved (string-level reasoning): exploration.",
-    technique="differential scripted UCI sessions impl/model/reference + Lean lemmas on the extension recogniser",
-    rule="scripts of 2-6 position/ucinewgame commands (+go) over 38 start positions and random legal move lists; non-trivial = distinct script; kinds counted (extend/repeat/shorten/other-game/prefix-clock/malformed)",
-    partial=["state = denote(last command) for all sequences is not a theorem: decided by impl-vs-reference comparison"],
+    level_text="Lean theorems (full, for every engine as an abstract reset/move pair): the position handler (Model.UciPos, the very function the driver model calls: uciPosition_is_model by rfl) "
+               "sets the engine state to denote(line) - reset on the FEN and play the moves from scratch - for every well-formed playable line, whether it takes the from-scratch path "
+               "(fresh_eq_denote), the extension path (extend_eq_scratch: an extension has the same effect as setting the whole line up from scratch; a verbatim repeat is the empty "
+               "extension) or falls back (fallback_eq_denote); by list induction after ANY sequence of ucinewgame / well-formed playable position commands the state is the "
+               "denotation of the LAST one (state_eq_last); and on the concrete engine (proved Strict: Move refuses the words 'startpos' and a sixth FEN field) this holds after "
+               "arbitrary earlier lines, garbage included (engine_robust_state_eq_last). For abstract engines that accept such words the robustness claim is proved FALSE by witness "
+               "(malformed_then_wellformed_false_*), i.e. it rests on ParseMove, not on the handler. Tie: scripted sessions against the real uci.Driver, state after every command "
+               "vs the model (exact) and vs a game built from the last command alone.",
+    level_note="Trusted: Lean kernel; Driver.Uci/Model.UciPos tied exactly by the ucidet stream; well-formed = single spaces, six FEN fields, non-empty move words (lines with repeated "
+               "blanks are outside: the two code paths tokenise them differently - observation recorded in DESIGN.md).",
+    technique="Lean 4 proof over List Char (prefix/word lemmas, playing moves is a fold) for an abstract engine + instance for the concrete engine; differential scripted UCI sessions",
+    rule="scripts of 2-6 position/ucinewgame commands (+go) over 38 start positions and random legal move lists; non-trivial = distinct script; kinds counted (extend/repeat/shorten/other-game/prefix-clock/same-fen/malformed)",
+    partial=[],
     modelled=UCI_MODELLED,
 )
 
@@ -396,20 +399,23 @@ PROPS["C17"] = dict(
 )
 
 PROPS["C18"] = dict(
-    modules=["Morlock.Props.C07", "Morlock.Props.C08", "Morlock.Props.C03"],
+    modules=["Morlock.Props.C18"],
     streams=["c18"],
     timeout=dict(quick=900, thorough=6000),
-    level_text="Lean: the result of a search is a function of the Game it is given (Model.alphabeta is a pure function; C03.exact: it equals negamax, which does not mention the hash "
-               "table seed); the hash only enters through repetition pre-filtering, which C07.move_eq_hash + C08 show to be path independent for every table; analysis runs on a fork, "
-               "and C08.fork_isolated shows operations on a fork never change what the original reports. Tie: each search (plain, turochamp, sargon, bernstein wiring) repeated, with "
-               "Zobrist seeds 0/1/987654321, after other searches and alongside searches on other engines: identical (nodes, score, PV); analysis parked inside an evaluation "
-               "while the engine's game moves on, then released: the engine's game equals that of a fresh engine given the same moves, and a follow-up analysis (also after Reset with "
-               "a hash table) equals the fresh engine's; with noise on, two engines with the same seed give identical answers.",
-    level_note="Trusted: Lean kernel; data races between an unwinding halted search and its successor are only observed by the race detector (thorough tier); float summation order inside "
-               "turochamp is checked by repetition, not proved.",
-    technique="Lean 4 corollaries (purity, C03/C07/C08) + differential repetition / seeds / concurrency / gated isolation scenarios",
+    level_text="Lean theorems (full): function_of_game - two games related by a simulation that preserves what a node reports (drawn?, ply, moves, in check?, evaluation; NOT the hash) "
+               "give identical score, PV, node and poll counts at every depth and window when no table is used (hash_irrelevant); seed_independent - boards built by the same moves "
+               "with two different Zobrist tables are such a simulation (the reported draw results coincide: derived from C05.draw_iff_good on both sides, not assumed), hence the "
+               "search results are equal; state_irrelevant / repeatable_threaded - a search run after any other searches (any game) reports the same result as when run first; "
+               "carried_table_same_score (C11); analysis_isolated - any push/pop sequence at or above the fork point on the analysis fork leaves every observation of the engine's "
+               "board unchanged (C08), analysis_sees_the_game - the search on the rebased fork equals the search on the engine's own world, analyze_pure. Tie: each search (plain, "
+               "turochamp, sargon, bernstein wiring) repeated, with three Zobrist seeds, after and alongside other searches: identical (nodes, score, PV); analysis parked inside an "
+               "evaluation while the engine's game moves on; noise reproducible from the seed.",
+    level_note="Trusted: Lean kernel. seed_independent assumes every generated move pushed is a C05 GoodStep (decidable: treeCheck; holds on the examples; C01 gives MetaOK/ClassOK, the "
+               "remaining MoveSound facts are not yet derived from the generator). Data races between an unwinding halted search and its successor: race detector (thorough). The historical "
+               "evaluators are not transcribed: their determinism is decided by repetition.",
+    technique="Lean 4 proof (simulation congruence for alpha-beta/quiescence; C05/C07/C08 for seed independence and fork isolation) + differential repetition / seeds / concurrency / gated isolation",
     rule="16 det scripts x 4 engine kinds (10 searches each) + 12 isolation scenarios (gate 30-330, hash 0/1) + 6 noise scripts; non-trivial = distinct script",
-    partial=["sargon/turochamp/bernstein evaluators are not transcribed: their determinism is decided by repetition across seeds and engines"],
+    partial=["GoodStep for generated moves is a hypothesis of seed_independent (decidable per position); historical evaluators by repetition only"],
     modelled=["engine/engine.go Analyze (fork), board.Fork, search (pure model)"],
 )
 
